@@ -268,12 +268,18 @@ package graphsync
 //@ func (*graphsync.dtChannel).gsReqOpened {C16,C20}
 //@   acquires {C20} graphsync.dtChannel.optionsLk, graphsync.requestIDToChannelIDMap.lk
 //@   requires hookActions != nil
-//@ func (*graphsync.dtChannel).gsDataRequestRcvd {C16,C20}
+//@ func (*graphsync.dtChannel).gsDataRequestRcvd {C16,C20,C10}
 //@   modifies c.isOpen, c.pendingExtensions, c.requestID, c.requesterCancelled
 //@   acquires {C20} graphsync.dtChannel.optionsLk, graphsync.requestIDToChannelIDMap.lk
 //@   locked c.lk -- "must be called under the lock"
 //@   requires hookActions != nil
-//@   loop 0 invariant [pending] $i >= 0
+//@   loop 0 invariant [sent-so-far] {C10} calls(IncomingRequestHookActions.SendExtensionData) == $i && $i <= len(extensions) && len(c.pendingExtensions) == 0
+//@   loop 0 step [in-order] {C10} calls(IncomingRequestHookActions.SendExtensionData) == 1 && all(IncomingRequestHookActions.SendExtensionData, $1 == extensions[$i - 1])
+//@   ensures [queued-delivered-once] {C10} calls(IncomingRequestHookActions.SendExtensionData) == (old(c.requesterCancelled) ? len(old(c.pendingExtensions)) : 0) &&
+//@       (old(c.requesterCancelled) ==> len(c.pendingExtensions) == 0) && !c.requesterCancelled
+//@       -- what was queued while the requester was away goes out with this request, and the queue is emptied so it goes out only once
+//@   ensures [request-becomes-current] {C10,C16} c.isOpen && c.requestID != nil && *c.requestID == requestID &&
+//@       called(requestIDToChannelIDMap.set, c.t.requestIDToChannelID, requestID, true, c.channelID)
 //@ func (*graphsync.dtChannel).setMaxLinks {C20}
 //@   modifies c.maxLinksOption
 //@   acquires {C20} graphsync.dtChannel.optionsLk
